@@ -771,7 +771,9 @@ class Permutation(base.Recombinator):
     super()._on_bound()
     self._random = random if self.seed is None else random.Random(self.seed)
     if self.where.sym_hasattr('seed'):
-      self.where.rebind(seed=self.seed, skip_notification=True)
+      # NOTE: the filter re-creates its random generator upon the change.
+      self.where.rebind(
+          seed=self.seed, raise_on_no_change=False, notify_parents=False)
 
   def recombine(
       self,
